@@ -211,6 +211,15 @@ def sandbox_call(
     try:
       q.put(_run())
     except Exception as e:  # pylint: disable=broad-exception-caught
+      # NOTE: the queue pickles the error in a feeder thread: an error that
+      # cannot be pickled (e.g. of a class defined by the code) would never be
+      # sent, and the main process would wait until the timeout.
+      try:
+        pickle.dumps(e)
+      except Exception as pickle_error:  # pylint: disable=broad-exception-caught
+        e = errors.SerializationError(
+            f'Cannot serialize sandbox error: {e!r}', pickle_error
+        )
       q.put(e)
 
   q = multiprocessing.Queue()
